@@ -22,16 +22,17 @@ import (
 // boundary (strace seam) are reported and, with stop-on-error, never give a partial report.
 
 type faultItem struct {
-	Kind    string `json:"kind"`
-	Path    string `json:"path"`           // file the item lives in (relative to the directory)
-	Text    string `json:"text,omitempty"` // content of a separate file, or the inserted document
-	Raw     []byte `json:"raw,omitempty"`
-	Link    string `json:"link,omitempty"`
-	Inline  bool   `json:"inline,omitempty"` // inserted into an existing file of the base at Pos
-	File    int    `json:"file,omitempty"`
-	Pos     int    `json:"pos,omitempty"`
-	Entries int    `json:"entries"` // number of severe entries this item must produce (0 = none required)
-	Scan    bool   `json:"scan"`    // reported by the directory scan (not by object conversion)
+	Kind    string   `json:"kind"`
+	Path    string   `json:"path"`           // file the item lives in (relative to the directory)
+	Text    string   `json:"text,omitempty"` // content of a separate file, or the inserted document
+	Raw     []byte   `json:"raw,omitempty"`
+	Link    string   `json:"link,omitempty"`
+	Inline  bool     `json:"inline,omitempty"` // inserted into an existing file of the base at Pos
+	File    int      `json:"file,omitempty"`
+	Pos     int      `json:"pos,omitempty"`
+	Entries int      `json:"entries"`         // number of severe entries this item must produce (0 = none required)
+	Scan    bool     `json:"scan"`            // reported by the directory scan (not by object conversion)
+	Names   []string `json:"names,omitempty"` // resource names of the bad documents (diff entries carry no file location)
 }
 
 var irrelevantDocs = []string{
@@ -172,7 +173,7 @@ func genFaultItems(r *rng, docs []Doc, lay Layout) []faultItem {
 			if !ok {
 				continue
 			}
-			items = append(items, faultItem{Kind: "X4.list", Path: fresh(".yaml"), Text: lst, Entries: 1})
+			items = append(items, faultItem{Kind: "X4.list", Path: fresh(".yaml"), Text: lst, Entries: 1, Names: []string{name}})
 		case 12, 13:
 			// X4 stale broken copy: a document with the identity (kind, namespace, name) of a document of
 			// the base whose spec no longer converts, delivered before or after the good one
@@ -185,12 +186,12 @@ func genFaultItems(r *rng, docs []Doc, lay Layout) []faultItem {
 				continue
 			}
 			if r.chance(1, 2) {
-				items = append(items, faultItem{Kind: "X4.copy.file", Path: fresh(".yaml"), Text: t, Entries: 1})
+				items = append(items, faultItem{Kind: "X4.copy.file", Path: fresh(".yaml"), Text: t, Entries: 1, Names: []string{docs[di].Name}})
 			} else {
 				for fi, f := range lay {
 					for pos, d := range f.Docs {
 						if d == di {
-							items = append(items, faultItem{Kind: "X4.copy.inline", Path: f.Path, Inline: true, File: fi, Pos: pos + r.intn(2), Text: t, Entries: 1})
+							items = append(items, faultItem{Kind: "X4.copy.inline", Path: f.Path, Inline: true, File: fi, Pos: pos + r.intn(2), Text: t, Entries: 1, Names: []string{docs[di].Name}})
 						}
 					}
 				}
@@ -247,14 +248,15 @@ func genFaultItems(r *rng, docs []Doc, lay Layout) []faultItem {
 			items = append(items, faultItem{Kind: "X3.torn", Path: fresh(".yaml"), Text: t, Entries: 1, Scan: true})
 		case 8: // X4 separate file, possibly several documents
 			m := r.between(1, 3)
-			var parts []string
+			var parts, names []string
 			scan := false
 			for q := 0; q < m; q++ {
 				t := pick(r, badSchemaDocs)
 				scan = scan || metadataLevel(t)
 				parts = append(parts, fmt.Sprintf(t, fmt.Sprintf("%s-%d", name, q)))
+				names = append(names, fmt.Sprintf("%s-%d", name, q))
 			}
-			items = append(items, faultItem{Kind: "X4.file", Path: fresh(".yaml"), Text: strings.Join(parts, "---\n"), Entries: m, Scan: scan})
+			items = append(items, faultItem{Kind: "X4.file", Path: fresh(".yaml"), Text: strings.Join(parts, "---\n"), Entries: m, Scan: scan, Names: names})
 		case 9: // X4 inline
 			if len(lay) == 0 {
 				continue
@@ -266,7 +268,7 @@ func genFaultItems(r *rng, docs []Doc, lay Layout) []faultItem {
 				// inside a file of the base that would be a scan fault on a used file: keep those separate
 				t = pick(r, badSchemaDocs)
 			}
-			items = append(items, faultItem{Kind: "X4.inline", Path: lay[fi].Path, Inline: true, File: fi, Pos: r.intn(len(lay[fi].Docs) + 1), Text: fmt.Sprintf(t, name), Entries: 1})
+			items = append(items, faultItem{Kind: "X4.inline", Path: lay[fi].Path, Inline: true, File: fi, Pos: r.intn(len(lay[fi].Docs) + 1), Text: fmt.Sprintf(t, name), Entries: 1, Names: []string{name}})
 		case 10: // X5 dangling symlink
 			items = append(items, faultItem{Kind: "X5.dangling", Path: fresh(".yaml"), Link: "/nonexistent/target.yaml", Entries: 1, Scan: true})
 		default: // X5 symlink loop
@@ -343,8 +345,10 @@ func c13Steps(c *c13Case) []job.Step {
 		{Kind: job.Diff, Dir1: "b", Dir2: "bf", Fmt: "txt"},               // 7
 		{Kind: job.Diff, Dir1: "bf", Dir2: "b", Fmt: "txt", Stop: true},   // 8
 	}
+	// 9: the faulted directory against itself (bad documents on both sides of a diff)
+	st = append(st, job.Step{Kind: job.Diff, Dir1: "bf", Dir2: "bf", Fmt: "txt"})
 	if !c.admin {
-		st = append(st, job.Step{Kind: job.List, Dir: "b", Fmt: "txt", Exposure: true}, job.Step{Kind: job.List, Dir: "bf", Fmt: "txt", Exposure: true}) // 9, 10
+		st = append(st, job.Step{Kind: job.List, Dir: "b", Fmt: "txt", Exposure: true}, job.Step{Kind: job.List, Dir: "bf", Fmt: "txt", Exposure: true}) // 10, 11
 	}
 	return st
 }
@@ -371,6 +375,25 @@ func entriesNaming(e *job.Event, path string) int {
 	n := 0
 	for _, x := range e.Errors {
 		if x.Severe && !x.Fatal && (strings.Contains(x.Location, base) || strings.Contains(x.Text, base)) {
+			n++
+		}
+	}
+	return n
+}
+
+// entriesNamingItem: for diff, whose entries carry no file location, the resource names count too.
+func entriesNamingItem(e *job.Event, it *faultItem) int {
+	base := filepath.Base(it.Path)
+	n := 0
+	for _, x := range e.Errors {
+		if !x.Severe || x.Fatal {
+			continue
+		}
+		hit := strings.Contains(x.Location, base) || strings.Contains(x.Text, base)
+		for _, nm := range it.Names {
+			hit = hit || strings.Contains(x.Text, "name: "+nm+" ")
+		}
+		if hit {
 			n++
 		}
 	}
@@ -457,13 +480,13 @@ func c13Judge(c *c13Case, items []faultItem, steps []job.Step, ev []job.Event) (
 			return "a", fmt.Sprintf("%s: diff between the directory and itself plus unused documents is not empty: %v", stepDesc(&steps[i]), e.DiffRows)
 		}
 	}
-	if len(ev) > 10 && ev[9].OK && !bad(9, 10) {
-		e := &ev[10]
+	if len(ev) > 11 && ev[10].OK && !bad(10, 11) {
+		e := &ev[11]
 		if !e.OK {
 			return "a", "list --exposure fails next to added documents: " + e.Err
 		}
-		if !sameStrings(e.Conns, ev[9].Conns) || !sameStrings(e.Exposed, ev[9].Exposed) {
-			return "a", "list --exposure: result differs from the fault-free directory: " + diffStrings(ev[9].Conns, e.Conns) + diffStrings(ev[9].Exposed, e.Exposed)
+		if !sameStrings(e.Conns, ev[10].Conns) || !sameStrings(e.Exposed, ev[10].Exposed) {
+			return "a", "list --exposure: result differs from the fault-free directory: " + diffStrings(ev[10].Conns, e.Conns) + diffStrings(ev[10].Exposed, e.Exposed)
 		}
 	}
 	// (b) every broken / non-convertible / unreadable item has its severe entries
@@ -480,6 +503,25 @@ func c13Judge(c *c13Case, items []faultItem, steps []job.Step, ev []job.Event) (
 		if !it.Scan && !bad(2) {
 			if n := entriesNaming(&ev[2], it.Path); n < it.Entries {
 				return "b", fmt.Sprintf("list (ResourceInfos API): %s item %s has %d severe entries naming it, want at least %d", it.Kind, it.Path, n, it.Entries)
+			}
+		}
+	}
+	// (b) for diff: with bad documents in both directories, both are reported
+	if !bad(9) {
+		e := &ev[9]
+		if !e.OK {
+			return "a", "diff of the faulted directory with itself fails: " + e.Err
+		}
+		if !e.DiffEmpty || len(e.DiffRows) > 0 {
+			return "a", fmt.Sprintf("diff of the faulted directory with itself is not empty: %v", e.DiffRows)
+		}
+		for k := range items {
+			it := &items[k]
+			if it.Entries == 0 {
+				continue
+			}
+			if n := entriesNamingItem(e, it); n < 2*it.Entries {
+				return "b", fmt.Sprintf("diff with bad documents on both sides: %s item %s has %d severe entries naming it, want at least %d (one set per directory)", it.Kind, it.Path, n, 2*it.Entries)
 			}
 		}
 	}
